@@ -176,29 +176,74 @@ Qed.
 
 (* ------------------------------------------------------------------ (c) byte layer + newline layer *)
 
+(* CPython's variant of the chunk decoder: the same result wherever the state machine accepts the piece ... *)
+Lemma decode_chunk_py_ok : forall bs st s st',
+  decode_chunk st bs = Some (s, st') -> decode_chunk_py st bs = Some (s, st', false).
+Proof.
+  induction bs as [|b r IH]; intros st s st' H.
+  - cbn in H. inversion H; subst. reflexivity.
+  - cbn [decode_chunk] in H. cbn [decode_chunk_py].
+    destruct (decode_byte st b) as [[o st1]|]; [|discriminate].
+    destruct (decode_chunk st1 r) as [[s2 st2]|] eqn:E; [|discriminate].
+    rewrite (IH _ _ _ E). inversion H; subst. reflexivity.
+Qed.
+
+(* ... and where the state machine rejects it, either the same rejection or a held surrogate pair *)
+Lemma decode_chunk_py_fail : forall bs st,
+  decode_chunk st bs = None ->
+  match decode_chunk_py st bs with
+  | None => True
+  | Some (_, _, sg) => sg = true
+  end.
+Proof.
+  induction bs as [|b r IH]; intros st H; [discriminate|].
+  cbn [decode_chunk] in H. cbn [decode_chunk_py].
+  destruct (decode_byte st b) as [[o st1]|].
+  - destruct (decode_chunk st1 r) as [[s2 st2]|] eqn:E; [discriminate|].
+    specialize (IH st1 E). destruct (decode_chunk_py st1 r) as [[[s3 st3] sg]|]; [exact IH|exact I].
+  - destruct r; [|exact I].
+    destruct (Nat.eqb (d_needed st) 2 && N.eqb (d_upper st) 159 && (160 <=? b)%N && (b <=? 191)%N); [reflexivity|exact I].
+Qed.
+
+(* once a truncated surrogate pair is held, the run ends in the decoding error whatever follows *)
+Lemma text_layer_from_surr : forall raws d p,
+  text_layer_from CUtf8 {| tl_dec := d; tl_surr := true; tl_pendingcr := p |} raws = None.
+Proof.
+  induction raws as [|r rest IH]; intros d p.
+  - reflexivity.
+  - cbn [text_layer_from]. unfold tl_decode, byte_decode. cbn [tl_dec tl_surr tl_pendingcr].
+    destruct r as [|b r']; [|reflexivity].
+    destruct (nl_decode p [] false) as [o p1]. rewrite IH. reflexivity.
+Qed.
+
 Lemma text_layer_from_utf8 : forall raws d p,
-  text_layer_from CUtf8 {| tl_dec := d; tl_pendingcr := p |} raws = option_map (nl_stream p) (decode_streaming_from d raws).
+  text_layer_from CUtf8 {| tl_dec := d; tl_surr := false; tl_pendingcr := p |} raws =
+  option_map (nl_stream p) (decode_streaming_from d raws).
 Proof.
   induction raws as [|r rest IH]; intros d p.
   - cbn [text_layer_from decode_streaming_from nl_stream]. unfold tl_decode, byte_decode.
-    cbn [tl_dec tl_pendingcr decode_chunk].
-    destruct (decode_flush d); cbn [andb negb option_map].
+    cbn [tl_dec tl_surr tl_pendingcr decode_chunk_py].
+    destruct (decode_flush d); cbn [andb orb negb option_map].
     + cbn [nl_stream]. destruct (nl_decode p [] true) as [o p1]. reflexivity.
     + reflexivity.
-  - cbn [text_layer_from decode_streaming_from]. unfold tl_decode, byte_decode. cbn [tl_dec tl_pendingcr].
-    destruct (decode_chunk d r) as [[s d1]|]; [|reflexivity].
-    cbn [andb]. destruct (nl_decode p s false) as [o p1] eqn:E.
-    rewrite IH. destruct (decode_streaming_from d1 rest) as [l|]; [|reflexivity].
-    cbn [option_map nl_stream]. rewrite E. reflexivity.
+  - cbn [text_layer_from decode_streaming_from]. unfold tl_decode, byte_decode. cbn [tl_dec tl_surr tl_pendingcr].
+    destruct (decode_chunk d r) as [[s d1]|] eqn:Ec.
+    + rewrite (decode_chunk_py_ok _ _ _ _ Ec). cbn [andb]. destruct (nl_decode p s false) as [o p1] eqn:E.
+      rewrite IH. destruct (decode_streaming_from d1 rest) as [l|]; [|reflexivity].
+      cbn [option_map nl_stream]. rewrite E. reflexivity.
+    + pose proof (decode_chunk_py_fail _ _ Ec) as F.
+      destruct (decode_chunk_py d r) as [[[s3 d3] sg]|]; [|reflexivity].
+      subst sg. cbn [andb]. destruct (nl_decode p s3 false) as [o p1].
+      rewrite text_layer_from_surr. reflexivity.
 Qed.
 
-Lemma text_layer_from_latin1 : forall raws d p,
-  text_layer_from CLatin1 {| tl_dec := d; tl_pendingcr := p |} raws = Some (nl_stream p raws).
+Lemma text_layer_from_latin1 : forall raws d sg p,
+  text_layer_from CLatin1 {| tl_dec := d; tl_surr := sg; tl_pendingcr := p |} raws = Some (nl_stream p raws).
 Proof.
-  induction raws as [|r rest IH]; intros d p.
-  - cbn [text_layer_from nl_stream]. unfold tl_decode, byte_decode, decode_latin1. cbn [tl_dec tl_pendingcr].
+  induction raws as [|r rest IH]; intros d sg p.
+  - cbn [text_layer_from nl_stream]. unfold tl_decode, byte_decode, decode_latin1. cbn [tl_dec tl_surr tl_pendingcr].
     change (@nil byte) with (@nil ch). destruct (nl_decode p [] true) as [o p1] eqn:E. reflexivity.
-  - cbn [text_layer_from nl_stream]. unfold tl_decode, byte_decode, decode_latin1. cbn [tl_dec tl_pendingcr].
+  - cbn [text_layer_from nl_stream]. unfold tl_decode, byte_decode, decode_latin1. cbn [tl_dec tl_surr tl_pendingcr].
     destruct (nl_decode p r false) as [o p1] eqn:E. rewrite IH. reflexivity.
 Qed.
 
